@@ -129,8 +129,9 @@ impl WmoWriter {
         };
         mogp_header.write(writer)?;
 
-        // Write group header fields
+        // Write group header fields (68 bytes)
         writer.write_u32_le(group.header.name_offset)?;
+        writer.write_u32_le(0)?; // Descriptive group name offset
         writer.write_u32_le(group.header.flags.bits())?;
 
         // Write bounding box
@@ -142,9 +143,19 @@ impl WmoWriter {
         writer.write_f32_le(group.header.bounding_box.max.y)?;
         writer.write_f32_le(group.header.bounding_box.max.z)?;
 
-        // Write flags and index
-        writer.write_u16_le(0)?; // Flags2, only used in later versions
-        writer.write_u16_le(group.header.group_index as u16)?;
+        // The remaining header fields are not carried by WmoGroupHeader
+        writer.write_u16_le(0)?; // Portal start
+        writer.write_u16_le(0)?; // Portal count
+        writer.write_u16_le(0)?; // Trans batch count
+        writer.write_u16_le(0)?; // Int batch count
+        writer.write_u16_le(0)?; // Ext batch count
+        writer.write_u16_le(0)?; // Padding / batch type D
+        writer.write_all(&[0u8; 4])?; // Fog IDs
+        writer.write_u32_le(0)?; // Group liquid
+        writer.write_u32_le(0)?; // WMOAreaTable group ID
+        writer.write_u32_le(0)?; // Flags2
+        writer.write_i16_le(0)?; // Parent / first child split group
+        writer.write_i16_le(0)?; // Next split child group
 
         // Mark the start of subchunks
         let _subchunks_start = writer.stream_position()?;
